@@ -374,7 +374,9 @@ def gen_policy_scripts(work, mode, tier, seed, quick_n=1500):
                 buckets[(s["cfg"]["tokenAuth"], s["cfg"]["verifyIp"], str(t.get("mintXFF") or t.get("mintIP")), str(cli))].append(s)
             else:
                 ph_user = s["tun"]["user"] if (any("PH" in e for e in s["cfg"]["hosts"]) and st["name"] in (["H127", "7"], ["H127", "8"])) else None
-                buckets[(s["cfg"]["sel"], json.dumps(s["cfg"]["hosts"]), json.dumps(st["name"]), s["cfg"]["tokenAuth"], str(ph_user))].append(s)
+                # (the address switch is a dimension of the host requests as well: what it turns off is the address
+                # comparison, never the binding of the tunnel to its token's host)
+                buckets[(s["cfg"]["sel"], json.dumps(s["cfg"]["hosts"]), json.dumps(st["name"]), s["cfg"]["tokenAuth"], str(ph_user), s["cfg"]["verifyIp"] or not s["cfg"]["tokenAuth"])].append(s)
         keep = []
         per = max(1, quick_n // max(1, len(buckets)))
         for k in sorted(buckets):
